@@ -2,6 +2,7 @@
 package verif_c02_test
 
 import (
+	"sort"
 	"context"
 	"fmt"
 	"path"
@@ -38,6 +39,16 @@ func sameContent(a, b content) bool {
 	return true
 }
 
+func sideSnapshot(st *cx.State) map[uint32]cx.SideChan {
+	out := map[uint32]cx.SideChan{}
+	for k, c := range st.Side {
+		cp := *c
+		cp.TS = append([]int64(nil), c.TS...)
+		out[k] = cp
+	}
+	return out
+}
+
 func snapshot(m *tsm.Model) map[uint32]content {
 	out := map[uint32]content{}
 	for _, k := range m.Order {
@@ -66,8 +77,13 @@ func describe(e entry) string {
 	if e.Kind == "rename" {
 		b2 := path.Base(e.Path2)
 		c2 := b2
-		if numDomain.MatchString(b2) {
+		switch {
+		case numDomain.MatchString(b2):
 			c2 = "N.domain"
+		case strings.Contains(b2, "-DELETE-"):
+			c2 = "chan-DELETE"
+		case strings.HasSuffix(b2, ".domain_temp"):
+			c2 = "N.domain_temp"
 		}
 		return "rename(" + cat + "->" + c2 + ")"
 	}
@@ -94,6 +110,7 @@ func execute(sc cx.Script, rep *kit.Report) error {
 	marks := make([]mark, len(sc.Ops))
 	var snaps []map[uint32]content       // snaps[s]: model content after s completed ops
 	var durable []map[uint32]int         // durable[s][ch]: newest snapshot index guaranteed durable after s completed ops
+	var sideSnaps []map[uint32]cx.SideChan // sideSnaps[s]: expected side-channel states after s completed ops
 	autoCommit := map[int]bool{}
 	persistAlways := map[int]bool{}
 	wchans := map[int][]uint32{}
@@ -108,6 +125,7 @@ func execute(sc cx.Script, rep *kit.Report) error {
 				if setupEnd < 0 {
 					setupEnd = j.len()
 					snaps = append(snaps, snapshot(st.M))
+					sideSnaps = append(sideSnaps, sideSnapshot(st))
 					d := map[uint32]int{}
 					for _, k := range st.M.Order {
 						d[k] = 0
@@ -123,6 +141,7 @@ func execute(sc cx.Script, rep *kit.Report) error {
 			marks[i].end = j.len()
 			s := len(snaps)
 			snaps = append(snaps, snapshot(st.M))
+			sideSnaps = append(sideSnaps, sideSnapshot(st))
 			switch op.Kind {
 			case "write":
 				if autoCommit[op.W] && persistAlways[op.W] {
@@ -187,7 +206,7 @@ func execute(sc cx.Script, rep *kit.Report) error {
 			}
 		}
 		for _, torn := range variants {
-			if v := checkImage(ctx, sc, specs, entries, k, torn, setupEnd, marks, snaps, durable, rep); v != nil {
+			if v := checkImage(ctx, sc, specs, entries, k, torn, setupEnd, marks, snaps, durable, sideSnaps, rep); v != nil {
 				if kv, ok := v.(*kit.Violation); ok && rep.Known(kv.Sig) {
 					rep.Add("images_excluded_known_finding", 1)
 					continue
@@ -204,7 +223,7 @@ func execute(sc cx.Script, rep *kit.Report) error {
 		for i := range marks {
 			if marks[i].start < k && k < marks[i].end {
 				kind := sc.Ops[i].Kind
-				if kind == "delete" || kind == "gc" || kind == "commit" || kind == "write" || kind == "close" {
+				if kind == "delete" || kind == "gc" || kind == "commit" || kind == "write" || kind == "close" || strings.HasPrefix(kind, "x") {
 					insideOp = true
 					rep.Add("crash_points_inside_"+kind, 1)
 				}
@@ -222,7 +241,7 @@ func execute(sc cx.Script, rep *kit.Report) error {
 }
 
 func checkImage(ctx context.Context, sc cx.Script, specs []tsm.ChannelSpec, entries []entry, k, torn, setupEnd int,
-	marks []mark, snaps []map[uint32]content, durable []map[uint32]int, rep *kit.Report) error {
+	marks []mark, snaps []map[uint32]content, durable []map[uint32]int, sideSnaps []map[uint32]cx.SideChan, rep *kit.Report) error {
 	fs, rerr := rebuild(entries, k, torn)
 	if rerr != nil {
 		return kit.Fail("harness-rebuild", "rebuilding image %d failed: %v", k, rerr)
@@ -315,6 +334,64 @@ func checkImage(ctx context.Context, sc cx.Script, specs []tsm.ChannelSpec, entr
 	if k < setupEnd {
 		return nil
 	}
+	// side channels (created, renamed and deleted by the script): each must be in the state
+	// the completed operations left it in, or - when the operation in flight targets it - in
+	// the state that operation produces; an in-flight write may have stored a prefix
+	var sideKeys []uint32
+	for key := range sideSnaps[len(sideSnaps)-1] {
+		sideKeys = append(sideKeys, key)
+	}
+	sort.Slice(sideKeys, func(a, b int) bool { return sideKeys[a] < sideKeys[b] })
+	for _, key := range sideKeys {
+		done, hasDone := sideSnaps[completed][key]
+		next, hasNext := done, hasDone
+		if inflight >= 0 {
+			next, hasNext = sideSnaps[completed+1][key]
+		}
+		ch, cerr := db.RetrieveChannel(ctx, key)
+		exists := cerr == nil
+		var got []int64
+		if exists && ch.IsIndex {
+			var rerr error
+			if got, rerr = cx.SideContent(ctx, db, key); rerr != nil {
+				return kit.Fail("read-error:"+window, "%s: reading side channel %d failed: %v", where, key, rerr)
+			}
+		}
+		matches := func(c cx.SideChan, has bool) bool {
+			if !has || !c.Exists {
+				return !exists
+			}
+			if !exists || ch.Name != c.Name {
+				return false
+			}
+			if c.Kind != "index" {
+				return true
+			}
+			if len(got) != len(c.TS) {
+				return false
+			}
+			for i := range got {
+				if got[i] != c.TS[i] {
+					return false
+				}
+			}
+			return true
+		}
+		ok := matches(done, hasDone) || matches(next, hasNext)
+		if !ok && inflight >= 0 && sc.Ops[inflight].Kind == "xwrite" && exists && hasNext && ch.Name == next.Name && len(got) >= len(done.TS) && len(got) <= len(next.TS) {
+			ok = true
+			for i := range got {
+				ok = ok && got[i] == next.TS[i]
+			}
+		}
+		if !ok {
+			sig := "side-channel-state:"
+			if exists && ((hasDone && done.Exists && ch.Name == done.Name) || (hasNext && next.Exists && ch.Name == next.Name)) {
+				sig = "inconsistent-state:" // right channel, wrong samples: same class as for the model's channels
+			}
+			return kit.Fail(sig+window, "%s: side channel %d is (exists=%v name=%q samples=%v); the completed operations leave it as %+v (defined=%v), the operation in flight as %+v (defined=%v)", where, key, exists, ch.Name, got, done, hasDone, next, hasNext)
+		}
+	}
 	// the image must be usable: a new writer after all existing data, write, commit, read back
 	return postCrashWrite(ctx, db, sc, specs, window, where)
 }
@@ -361,6 +438,6 @@ func postCrashWrite(ctx context.Context, db *cesium.DB, sc cx.Script, specs []ts
 func TestC02(t *testing.T) {
 	r := &kit.Runner[cx.Script]{Name: "TestC02", Exec: execute}
 	r.Run(t, func(rt *rapid.T) cx.Script {
-		return cx.Gen(rt, cx.GenOpts{MaxChans: 2, Groups: 1, MinOps: 4, MaxOps: 22, Deletes: true, GC: true, NoReads: true, ForceSync: true, MaxWrite: 6})
+		return cx.Gen(rt, cx.GenOpts{MaxChans: 2, Groups: 1, MinOps: 4, MaxOps: 22, Deletes: true, GC: true, NoReads: true, ForceSync: true, MaxWrite: 6, SideChannels: true})
 	})
 }
